@@ -723,9 +723,16 @@ Matrix Matrix::Inverse() const
 		// Gauss Jordan elimination
 		for(unsigned int i = 0; i < N; i++)
 		{
+			// Partial pivoting: Exchange row i with the row below that has the largest entry in column i.
+			unsigned int i_pivot = i;
+			for(unsigned int j = i + 1; j < N; j++)
+				if(fabs(A[j][i]) > fabs(A[i_pivot][i]))
+					i_pivot = j;
+			if(i_pivot != i)
+				std::swap(A[i], A[i_pivot]);
 			if(A[i][i] == 0)
 			{
-				std::cerr << "Error in libphysica::Matrix::Inverse(): Diagonal element is zero." << std::endl;
+				std::cerr << "Error in libphysica::Matrix::Inverse(): Matrix is singular." << std::endl;
 				std::exit(EXIT_FAILURE);
 			}
 			for(unsigned int j = 0; j < N; j++)
